@@ -3,7 +3,7 @@ import JSight.Model.Context
 Model of `core/compile_core_macro.go` (`collectMacro`, `addMacro`), `core/compile_core.go`
 (`checkMacroForRecursion`, `findPaste`, after the repair F6) and `core/compile_core_paste.go`
 (`processPaste`, `processDirective`, `processPasteDirective`).
-Enum-rule collection inside macros (`collectRulesFromDirectives`) is not part of this model.
+Enum-rule collection is not part of this model (since F39 it happens after the expansion, over the expanded forest).
 -/
 namespace JSight
 open Gen
@@ -88,21 +88,10 @@ def truncateTo (n : Nat) : List Frame → List Tree → List Frame × List Tree
     else truncateTo n (attach f.tree p :: rest) roots
 termination_by fs => fs.length
 
-/-- `collectRulesFromDirectives(macro.Children)` at paste time: every ENUM that is a direct child of the
-pasted macro is registered; a missing name and a name registered before are errors (names are `Dir.name`). -/
-def collectEnums (rules : List Nat) : List Tree → Except Unit (List Nat)
-  | [] => .ok rules
-  | t :: r =>
-    if t.dir.kind == Kind.Enum then
-      if t.dir.name == 0 then .error ()
-      else if rules.contains t.dir.name then .error ()
-      else collectEnums (t.dir.name :: rules) r
-    else collectEnums rules r
-
-/-- state of the expansion: the context and the enum rules registered so far -/
+/-- state of the expansion: the context (ENUM rules are no longer registered at paste time: after the repair F39
+`collectRules` runs once over the expanded forest, see `Model/Build.lean` for that stage's neighbours) -/
 structure PState where
   ctx : Ctx := {}
-  rules : List Nat := []
 
 /-! `processDirective` / `processPasteDirectiveList`: re-run the context resolution over the directive
 trees, expanding PASTE by the children of the macro.  `outer` = id of the outermost PASTE being expanded
@@ -118,13 +107,10 @@ mutual
         else match ms.get? d.name with
           | none => .error here
           | some m =>
-            match collectEnums st.rules m.kids with
+            match expandList ms fuel (some (outer.getD d.id)) st m.kids with
+            | .error .fuel => .error .fuel
             | .error _ => .error here
-            | .ok rules' =>
-              match expandList ms fuel (some (outer.getD d.id)) { st with rules := rules' } m.kids with
-              | .error .fuel => .error .fuel
-              | .error _ => .error here
-              | .ok st' => .ok st'
+            | .ok st' => .ok st'
       else
         match place st.ctx.frames st.ctx.roots d with
         | .error e => .error (match outer with | some id => .inPaste id | none => .ctx e)
